@@ -14,6 +14,8 @@ import (
 
 	"verif/internal/sim"
 	"verif/internal/vf"
+
+	"github.com/talostrading/sonic"
 )
 
 // C03 - Pending() accounting, RunPending termination, EINTR, PollOne's return value.
@@ -416,6 +418,98 @@ func c03Signals(c *vf.Case, w *sim.World) {
 	}
 }
 
+// c03ManyReady: many descriptors are ready in the same cycle (k expired timers, k around the size of the poller's event
+// batch) - a PollOne that ran handlers reports success, Pending() follows the timers that are still to fire, and a
+// final PollOne with nothing left reports the timeout.
+func c03ManyReady(c *vf.Case, w *sim.World) {
+	k := []int{1, 100, 127, 128, 129, 200, 255, 256, 257, 300}[c.Rng.Intn(10)]
+	fired := 0
+	var timers []*sonic.Timer
+	defer func() {
+		for _, t := range timers {
+			_ = t.Close()
+		}
+	}()
+	for i := 0; i < k; i++ {
+		t, err := sonic.NewTimer(w.IOC)
+		if err != nil {
+			c.Logf("many-ready: NewTimer %d of %d: %v (probe skipped)", i, k, err)
+			c.Count("many_ready_probes_skipped", 1)
+			return
+		}
+		timers = append(timers, t)
+		if err := t.ScheduleOnce(time.Millisecond, func() { fired++ }); err != nil {
+			c.Failf("harness-setup", "ScheduleOnce: %v", err)
+			return
+		}
+	}
+	if got := w.IOC.Pending(); got != int64(k) {
+		c.Failf("pending-differs-with-many-timers", "%d timers armed, Pending()=%d", k, got)
+		return
+	}
+	time.Sleep(4 * time.Millisecond) // all of them are due now
+	polls := 0
+	for guard := 0; fired < k && guard < 4*k+50; guard++ {
+		before := fired
+		n, err := w.IOC.PollOne()
+		polls++
+		ran := fired - before
+		c.Logf("many-ready: PollOne -> n=%d err=%v, %d timer callbacks ran (%d of %d so far)", n, err, ran, fired, k)
+		if ran > 0 && (err != nil || n <= 0) {
+			c.Failf("pollone-reports-no-success-although-handlers-ran", "%d expired timers: PollOne ran %d callbacks and returned n=%d err=%v", k, ran, n, err)
+			return
+		}
+		if got := w.IOC.Pending(); got != int64(k-fired) {
+			c.Failf("pending-differs-with-many-timers", "%d of %d timers have fired, Pending()=%d", fired, k, got)
+			return
+		}
+		if ran == 0 {
+			time.Sleep(time.Millisecond)
+		}
+	}
+	if fired != k {
+		c.Failf("expired-timers-not-dispatched", "%d expired timers: only %d callbacks ran in %d PollOne calls", k, fired, polls)
+		return
+	}
+	if n, err := w.IOC.PollOne(); err == nil || n != 0 {
+		c.Failf("pollone-success-with-nothing-ready", "after all %d timers fired: PollOne returned n=%d err=%v", k, n, err)
+		return
+	}
+	c.Count("many_ready_probes", 1)
+	c.Cover("many_ready_counts", fmt.Sprintf("%d", k))
+}
+
+// c03PostBurst: thousands of handlers are queued before one dispatch, each posts a follow-up while the batch runs;
+// Pending() follows Posted() all the way down and RunPending returns.
+func c03PostBurst(c *vf.Case, w *sim.World) {
+	n := []int{1000, 4096, 4097, 6000, 9000}[c.Rng.Intn(5)]
+	first, second := 0, 0
+	for i := 0; i < n; i++ {
+		_ = w.IOC.Post(func() {
+			first++
+			_ = w.IOC.Post(func() { second++ })
+		})
+	}
+	if got := w.IOC.Pending(); got != int64(n) {
+		c.Failf("pending-differs-after-post-burst", "%d handlers posted, Pending()=%d", n, got)
+		return
+	}
+	for guard := 0; guard < 50 && (first < n || second < n); guard++ {
+		_, _ = w.IOC.PollOne()
+		want := int64(n-first) + int64(first-second)
+		if got := w.IOC.Pending(); got != want {
+			c.Failf("pending-differs-after-post-burst", "burst of %d: %d handlers and %d follow-ups have run, Pending()=%d, still queued by the ledger: %d", n, first, second, got, want)
+			return
+		}
+	}
+	if first != n || second != n {
+		c.Failf("posted-handlers-not-run", "burst of %d handlers that each post a follow-up: %d handlers and %d follow-ups ran within 50 cycles (Pending()=%d)", n, first, second, w.IOC.Pending())
+		return
+	}
+	c.Bounded("runpending-never-returns", 30*time.Second, func() { _ = w.IOC.RunPending() })
+	c.Count("post_burst_probes", 1)
+}
+
 func runC03(c *vf.Case) {
 	w, err := sim.NewWorld(c)
 	if err != nil {
@@ -424,6 +518,10 @@ func runC03(c *vf.Case) {
 	}
 	defer w.Teardown()
 	switch m := c.Index % 10; {
+	case m == 7 && c.Index%40 == 7:
+		c03ManyReady(c, w)
+	case m == 7 && c.Index%40 == 17:
+		c03PostBurst(c, w)
 	case m == 8:
 		c03RunPending(c, w)
 	case m == 9 && c.Index%30 == 9:
